@@ -298,6 +298,11 @@ def handle (op : String) (args : List String) : Option Reply :=
       ok (match A.minimize with
         | some A' => pAut A'
         | none => "PANIC")
+  | "minimize_then_prune", [A] => do
+      let A ← rAut A
+      ok (match A.minimize with
+        | some A' => (match A'.removeUnreachableStates with | some B => pAut B | none => "PANIC")
+        | none => "PANIC")
   | "fastset", [max, script] => do
       let max ← rNat max; let script ← rFScript script
       ok (pPanic id (runFastSet max script))
